@@ -17,6 +17,11 @@ Identifier-level value flow, computed from the `ast` of the CURRENT source tree:
     class family when the receiver is self/cls, package-wide otherwise) — so `channel_input` inside
     `Response.__repr__` / `raise_for_status` stands for the constructor argument of `Response(...)`, i.e. the
     command of `_pre_send_command` and the joined inputs of `_pre_send_interactive` (hidden ones included);
+  * closed under attribute ASSIGNMENT hooks, which have no call sites: the value parameter of a property setter
+    (`@X.setter def X(self, value)`) stands for the attribute X — the name itself (what a user assigns to
+    `conn.auth_password` IS the password) and every value the package stores under it; the value parameter of a
+    `__setattr__(self, name, value)` stands for every attribute stored on self in the class family.  (Descriptor
+    classes with `__set__` are not followed.)
   * guards: a flow that only happens when a boolean identifier G is FALSE carries the guard G
     (`if G: ... else: <sink>`, `x if not G else "REDACTED"`).  Crossing a call edge the guard is resolved
     against the call site: constant True -> the flow is dead (dropped); constant False / defaulted to False ->
@@ -127,6 +132,14 @@ class Func:
                 else:
                     self.other_loads.add(n.attr)
         self.qual = "%s%s" % (cls + "." if cls else "", self.name)
+        # attribute assignment hooks: `@X.setter` / `@X.deleter`-style decorators make this function the code that runs
+        # on `obj.X = v` (setter_of = "X"); `__setattr__` runs on EVERY `obj.<attr> = v` of the class
+        self.setter_of = None
+        for d in node.decorator_list:
+            if isinstance(d, ast.Attribute) and d.attr == "setter":
+                self.setter_of = d.value.id if isinstance(d.value, ast.Name) else d.value.attr if isinstance(d.value, ast.Attribute) else None
+                if self.setter_of is None:
+                    raise ValueError("gen_sinks: unexpected setter decorator on %s" % self.name)
         # identifiers annotated with a type: ident -> set of class names mentioned by the annotation
         self.annot = {}
         for x in a.posonlyargs + a.args + a.kwonlyargs:
@@ -770,7 +783,27 @@ class Analysis:
                         continue
                     for (j, g) in self.arg_flows(f, call, arg, idx, gs):
                         todo.append((caller, j, g))
+                # attribute assignment hooks have no call sites: `obj.X = v` runs the setter of X with value = v,
+                # `obj.<any attr> = v` runs __setattr__(name, value).  The value parameter stands for the attribute(s)
+                # it is assigned to — the NAME (what a user assigns to `conn.auth_password` is the password) and every
+                # value the package stores under that name
+                for attr in self.assigned_attrs(f, base):
+                    out.add((attr, gs))
+                    for (g, val) in self.attr_stores.get(attr, []):
+                        for (j, g2) in flows(val):
+                            todo.append((g, j, gs | g2))
         return out
+
+    def assigned_attrs(self, f, param):
+        """attribute names whose assignment hands its value to parameter `param` of f: f is the property setter of X
+        (value = first parameter after self), or f is a __setattr__ (value = second parameter after self: every
+        attribute stored on self in the class family, and every attribute with that class's name stored anywhere)"""
+        if f.setter_of is not None and f.skip_self and f.pos and f.pos[0] == param:
+            return [f.setter_of]
+        if f.name == "__setattr__" and f.skip_self and len(f.pos) >= 2 and f.pos[1] == param and f.cls:
+            fam = self.family.get(f.cls, {f.cls})
+            return sorted({a for a, sts in self.attr_stores.items() if any(g.cls in fam for (g, _v) in sts)})
+        return []
 
     def whole_objects(self, fn, exprs):
         """[(function, identifier)] that reach the sink expressions AS A WHOLE OBJECT in a formatting position (see
